@@ -8,6 +8,7 @@ export RUST_BACKTRACE=0
 HARNESS_DIR=/verif/harness
 BIN=/verif/target/harness/release/verif-harness
 CLI_TARGET=/verif/target/cli
+FUZZ_BIN=/verif/target/fuzz/x86_64-unknown-linux-gnu/release/prop
 
 build_harness() {
     # rebuilds /repo (path dependency, feature verif-hooks) from its current working tree
@@ -26,6 +27,55 @@ build_cli() {
         tail -n 30 /verif/target/cli-build.log
         exit 2
     fi
+}
+
+build_fuzz() {
+    # libFuzzer target (coverage instrumentation, debug assertions on, no sanitizer: cfr has no
+    # unsafe code and the address sanitizer costs a factor 12 here); rebuilds /repo as well
+    (cd "$HARNESS_DIR/fuzz" && cargo +nightly fuzz build -s none >/verif/target/fuzz-build.log 2>&1)
+}
+
+# second engine of the thorough tier: coverage-guided search over the same choice stream with the
+# same property function (oracle in-target), 16 processes with fixed run counts
+fuzz_stage() {
+    local id=$1 maxlen=$2
+    local seed=${VERIF_SEED:-1}
+    local runs=${VERIF_FUZZ_RUNS:-150000}
+    if ! build_fuzz; then
+        echo "NOTE: libFuzzer stage skipped, its target does not build (see /verif/target/fuzz-build.log); the proptest stage stands alone"
+        return 0
+    fi
+    local dir=/verif/target/fuzzrun/$id
+    rm -rf "$dir"; mkdir -p "$dir/corpus"
+    "$BIN" emit-corpus "$id" "$dir/corpus" 64
+    local start=$(date +%s)
+    local pids=()
+    for i in $(seq 0 15); do
+        VERIF_FUZZ_PROP=$id VERIF_FUZZ_STATS=$dir/stats-$i.json "$FUZZ_BIN" "$dir/corpus" \
+            -runs=$runs -seed=$((seed * 100 + i + 1)) -len_control=0 -max_len=$maxlen -timeout=120 \
+            -rss_limit_mb=3000 -max_total_time=1500 -artifact_prefix=$dir/artifact-$i- -print_final_stats=1 \
+            >"$dir/log-$i.txt" 2>&1 &
+        pids+=($!)
+    done
+    local bad=0
+    for p in "${pids[@]}"; do
+        wait "$p" || bad=$((bad + 1))
+    done
+    local wall=$(( $(date +%s) - start ))
+    local nviol
+    nviol=$(cat "$dir"/log-*.txt | grep -a '^VIOLATION' | sort -u | wc -l)
+    "$BIN" merge-fuzz "$id" "$wall" "$dir" "$nviol"
+    echo "$id libfuzzer stage: 16 processes x $runs runs, ${wall}s, $(cat "$dir"/log-*.txt | grep -a -c '^Done') finished, violations=$nviol"
+    if [ "$nviol" -gt 0 ]; then
+        cat "$dir"/log-*.txt | grep -a -E '^(  failure|VIOLATION)' | sort -u
+        return 1
+    fi
+    if [ "$bad" -gt 0 ]; then
+        echo "INCONCLUSIVE: $bad libFuzzer process(es) ended abnormally without a property violation (timeout, memory limit or crash of the harness); logs in $dir"
+        grep -a -l -E 'ERROR: libFuzzer|deadly signal' "$dir"/log-*.txt | head -3
+        return 2
+    fi
+    return 0
 }
 
 mkdir -p /verif/target /verif/evidence
@@ -52,4 +102,13 @@ build_harness
 case "$ID" in
     C15|C16|C17) build_cli ;;
 esac
-exec "$BIN" check "$ID" --tier "$TIER"
+"$BIN" check "$ID" --tier "$TIER"
+rc=$?
+if [ "$rc" -eq 0 ] && [ "$TIER" = thorough ] && [ "${VERIF_NO_FUZZ:-0}" != 1 ]; then
+    line=$("$BIN" fuzzable | grep "^$ID " || true)
+    if [ -n "$line" ]; then
+        fuzz_stage "$ID" "${line#* }"
+        rc=$?
+    fi
+fi
+exit $rc
